@@ -6,6 +6,7 @@ mod codec;
 mod gen;
 mod rng;
 mod scen_buf;
+mod scen_det;
 mod scen_exec;
 mod scen_gens;
 mod scen_graph;
@@ -67,6 +68,9 @@ fn main() {
                     &mut out,
                 ),
                 "steps" => scen_prog::run_steps(seed, tier, args.get(5).map(|s| s.as_str()).unwrap_or("*"), &mut out),
+                "det" => scen_det::run(seed, tier, &mut out),
+                "cli" => scen_det::run_cli(seed, tier, &mut out),
+                "srcscan" => scen_det::run_srcscan(&mut out),
                 "gencode" => scen_gens::run_code(seed, tier, &mut out),
                 "genvals" => scen_gens::run_values(seed, tier, &mut out),
                 "graph" => scen_graph::run(seed, tier, &mut out),
